@@ -30,6 +30,8 @@ type (
 		read bool
 
 		minTs, maxTs int64
+		// tsSet is true when minTs/maxTs hold a seen timestamp (0 is a legal timestamp)
+		tsSet bool
 	}
 )
 
@@ -48,13 +50,14 @@ func (iw *iwrapper) Get(ctx context.Context) (records.Record, error) {
 		return nil, err
 	}
 
-	if iw.minTs > lge.Timestamp || iw.minTs == 0 {
+	if iw.minTs > lge.Timestamp || !iw.tsSet {
 		iw.minTs = lge.Timestamp
 	}
 
-	if iw.maxTs < lge.Timestamp || iw.maxTs == 0 {
+	if iw.maxTs < lge.Timestamp || !iw.tsSet {
 		iw.maxTs = lge.Timestamp
 	}
+	iw.tsSet = true
 
 	sz := lge.WritableSize()
 	if cap(iw.rec) < sz {
@@ -90,6 +93,7 @@ func (iw *iwrapper) CurrentPos() records.IteratorPos {
 func (iw *iwrapper) resetMinMaxTs() {
 	iw.maxTs = 0
 	iw.minTs = 0
+	iw.tsSet = false
 }
 
 func (iw *iwrapper) close() {
